@@ -13,11 +13,18 @@ Clauses
               recursion; tau form uses alpha = e^{-delay/tau}; delays 1..12 and long
               delay lines up to 130; the feedback forms also from a given initial
               state (memory argument: y[-1] first), not only from rest
+  longcomb    delay lines of 131..48000 samples (echo / reverberator use): comb.tau's
+              feedback coefficient equals e^{-delay/tau} for taus from delay/10 to
+              100*delay (floats, ints, number or Stream-valued); for delays <= 3000 the
+              exact Q responses of fb / tau / ff over one to three periods, and the
+              impulse response at n = delay, 2*delay against the stated decay
   gammatone   sampled (eta 1..4, phase), slaney, klapuri: CascadeFilter of stable
               second-order sections with unit gain at the centre frequency
   streams     Stream-valued parameters (lowpass/highpass x4, resonator x4, comb
               alpha / tau, gammatone.klapuri): every coefficient Stream equals the
-              constant design's coefficient sample by sample
+              constant design's coefficient sample by sample; comb delays 1..12 and
+              131..48000; the tau form's coefficient Stream also equals e^{-delay/tau}
+              itself sample by sample
 """
 import math
 import itertools
@@ -33,7 +40,8 @@ from audiolazy import (lowpass, highpass, resonator, comb, gammatone, Stream,
 ID = "C13"
 RULE = ("cases = (design strategy chosen by name, parameters drawn from the "
         "documented ranges: cut-off / centre in [1e-3, pi-1e-3], bandwidth in "
-        "[1e-3, 1], delay 1..12 and long lines 13..130, alpha / tau, exact-rational input signals, "
+        "[1e-3, 1], delay 1..12, long lines 13..130 and 131..48000 (responses computed up to 3000, tau then "
+        "from delay/10 to 100*delay), alpha / tau, exact-rational input signals, "
         "feedback combs from rest or from a given memory of at least delay values) drawn "
         "by Hypothesis plus an enumerated list of boundary cut-offs; oracle = "
         "magnitude of B/A evaluated independently (fsum) from the returned "
@@ -57,6 +65,10 @@ ASSUMPTIONS = [
   "Stream-valued parameters are exercised for the thub-based designs only (lowpass, highpass, resonator, "
   "comb, gammatone.klapuri); gammatone.sampled / slaney take numbers",
   "comb coefficients are ints / floats (printed exactly into the generated filter source); signals are Q",
+  "comb delays are bounded by 48000 samples (one second at 48 kHz) for the coefficient contracts and by 3000 "
+  "samples for computed responses (at most 6500 samples per case); alpha = e^(-delay/tau) is compared with "
+  "math.exp(-delay/tau) to 1e-12 absolute (impulse response at delay, 2*delay: 4e-12); a tau so small that "
+  "e^(-delay/tau) underflows gives the coefficient 0.0, which is within that tolerance",
   "comb initial state: y[-k] is the k-th item of the memory argument (the documented convention of every "
   "LinearFilter call: 'the first needed elements ... will be used directly as the memory'), given as list, "
   "tuple, iterator, generator, Stream or callable(size); memories shorter than the delay are not generated "
@@ -440,6 +452,155 @@ def run_comb(case):
           "labels": labels}
 
 
+# ---------------------------------------------------------------- comb, delay lines of hundreds to thousands of samples
+#
+# A comb's delay is a number of samples: an echo or a room reflection of 20 ms..1 s is 900..48000
+# samples at audio rates, and the tau form is made for exactly that use (decay time of a
+# reverberator, tau several times the delay).  Cases stay small: the signals are built in run_case.
+
+LONGDELAY = ["131..708"] * 2 + ["709..745"] * 2 + ["746..3000"] * 5 + ["special"] * 2 + [">3000"] * 3
+_long_special = [256, 441, 512, 700, 708, 709, 710, 744, 745, 746, 750, 800, 1000, 1024, 1200,
+                 2048, 2205, 3000, 4096, 4410, 8192, 11025, 22050, 44100, 48000]
+RUNMAX = 3000         # longest delay whose response is computed (2 periods = 6001 samples)
+
+
+def _long_delay():
+  return st.sampled_from(LONGDELAY).flatmap(lambda r: {
+    "131..708": st.integers(131, 708), "709..745": st.integers(709, 745), "746..3000": st.integers(746, 3000),
+    "special": st.sampled_from(_long_special), ">3000": st.integers(3001, 48000)}[r])
+
+
+def _long_tau(D):
+  """taus from a tenth of the delay to a hundred times the delay (alpha from e^-10 to e^-0.01), as
+  floats, ints and round multiples; a small share of the other taus (tiny, infinite)."""
+  ratio = st.floats(-1, 2).map(lambda u: 10. ** u)
+  return st.sampled_from(["ratio"] * 4 + ["int"] * 2 + ["round", "other"]).flatmap(lambda r: {
+    "ratio": ratio.map(lambda q: D * q),
+    "int": ratio.map(lambda q: max(1, int(round(D * q)))),
+    "round": st.sampled_from([D, float(D), 2 * D, D / 2., 10 * D, 100. * D, D / 10., 3 * D, D + 1, 44100, 1e4]),
+    "other": _tau}[r])
+
+
+@st.composite
+def strat_longcomb_(draw):
+  kind = draw(st.sampled_from(["tau"] * 7 + ["fb", "fb", "ff"]))
+  name = draw(st.sampled_from(COMB[kind]))
+  mode = "run" if kind != "tau" else draw(st.sampled_from(["coef"] * 6 + ["run"] * 2 + ["stream"] * 3))
+  if mode == "run":       # responses are computed: the shorter of the long lines more often
+    D = draw(st.sampled_from(["a", "a", "a", "b", "b", "c", "c", "c", "d", "s", "s"]).flatmap(lambda r: {
+      "a": st.integers(131, 708), "b": st.integers(709, 745), "c": st.integers(746, 1500),
+      "d": st.integers(1501, RUNMAX), "s": st.sampled_from([d for d in _long_special if d <= RUNMAX])}[r]))
+  else:
+    D = draw(_long_delay())
+  case = {"kind": kind, "name": name, "delay": D, "kw": draw(st.booleans()), "mode": mode}
+  if mode == "stream":
+    case["par"] = draw(st.lists(_long_tau(D), min_size=3, max_size=6))
+    case["src"] = draw(st.sampled_from(["iter_stream", "list_stream", "generator_stream"]))
+  elif kind == "tau":
+    case["par"] = draw(_long_tau(D))
+  else:
+    case["par"] = draw(st.one_of(st.none(), _alpha))
+  if mode == "run":
+    case["sig"] = draw(st.sampled_from(["impulse", "impulse", "tiled"]))
+    case["pat"] = draw(st.lists(_q, min_size=1, max_size=9))
+    case["slope"] = draw(st.sampled_from([Q(0), Q(0), Q(1, 8), Q(-1, 3)]))
+    case["periods"] = draw(st.sampled_from([1, 2, 2, 2, 3]))
+    case["extra"] = draw(st.integers(1, 9))
+    case["zero"] = draw(st.sampled_from(["default", "q0"]))
+  return case
+
+
+def strat_longcomb(tier):
+  return strat_longcomb_()
+
+
+def run_longcomb(case):
+  kind, name, D, par, mode = case["kind"], case["name"], case["delay"], case["par"], case["mode"]
+  labels = ["comb." + kind, "mode:" + mode,
+            "delay 131..708" if D <= 708 else "delay 709..745" if D <= 745 else
+            "delay 746..3000" if D <= 3000 else "delay>3000"]
+
+  def tau_labels(taus, wants):
+    if all(t != math.inf for t in taus):
+      labels.append("tau finite")
+    if any(.1 * D <= t <= 100 * D for t in taus):
+      labels.append("tau within delay/10..100*delay")
+    if any(isinstance(t, int) for t in taus):
+      labels.append("int tau")
+    if D >= 709 and any(t != math.inf and w >= 1e-3 for t, w in zip(taus, wants)):
+      labels.append("delay>=709, finite tau, alpha>=1e-3")
+
+  if mode == "stream":
+    what = "comb.%s(%d, %sStream%r)" % (name, D, "tau=" if case["kw"] else "", tuple(par))
+    sf = design_comb(kind, name, D, as_stream(case["src"], par), case["kw"])
+    if not isinstance(sf, LinearFilter):
+      raise Violation("%s is a %s, not a linear filter" % (what, type(sf).__name__))
+    tab = coefficient_table(sf, len(par), what)
+    got = tab.get(("a", D))
+    wants = [math.exp(-D / t) for t in par]
+    if got is None:
+      raise Violation("%s: no denominator coefficient at delay %d (coefficients at %r)" % (what, D, sorted(tab)))
+    for i, (g, w) in enumerate(zip(got, wants)):
+      if not abs(-g - w) <= 1e-12:
+        raise Violation("%s: sample %d of the feedback coefficient is %r, e^(-delay/tau) with tau=%r is %r"
+                        % (what, i, -g, par[i], w))
+    sf = design_comb(kind, name, D, as_stream(case["src"], par), case["kw"])
+    ns = compare_tables(sf, [comb.tau(D, t) for t in par], what)
+    if ns == 0:
+      raise Violation("%s: no coefficient is a Stream" % what)
+    tau_labels(par, wants)
+    return {"nontrivial": any(t != math.inf and w >= 1e-6 for t, w in zip(par, wants)), "labels": labels}
+
+  filt = design_comb(kind, name, D, par, case["kw"])
+  what = "comb.%s(%r, %s%r)" % (name, D, ("tau=" if kind == "tau" else "alpha=") if case["kw"] else "", par)
+  b, a = coeffs(filt, what)
+  if kind == "tau":
+    want = math.exp(-D / par)
+    alpha = -a[D] / a[0] if len(a) > D else 0.
+    if not abs(alpha - want) <= 1e-12:
+      raise Violation("%s: feedback coefficient is %r, e^(-delay/tau) is %r" % (what, alpha, want))
+    tau_labels([par], [want])
+    real = par != math.inf and want >= 1e-6
+  else:
+    alpha = 1 if par is None else par
+    want = None
+    real = alpha != 0
+  if mode == "coef":
+    return {"nontrivial": real, "labels": labels}
+
+  al = Fraction(alpha)
+  n = min(case["periods"] * D + case["extra"], 6500)
+  if case["sig"] == "impulse":
+    x = [Q(1)] + [Q(0)] * (n - 1)
+  else:
+    x = tiled(case["pat"], case["slope"], n)
+  kw = {} if case["zero"] == "default" else {"zero": Q(0)}
+  y = list(filt(list(x), **kw))
+  if len(y) != len(x):
+    raise Violation("%s: %d samples in, %d out" % (what, len(x), len(y)))
+  exp = []
+  for i, xn in enumerate(x):
+    past = (exp[i - D] if kind != "ff" else Fraction(x[i - D])) if i >= D else Fraction(0)
+    exp.append(Fraction(xn) + al * past)
+  sigtxt = "the unit impulse" if case["sig"] == "impulse" else "x[k] = %r[k %% %d] + k*%r" % (
+    case["pat"], len(case["pat"]), case["slope"])
+  for i, (g, w) in enumerate(zip(y, exp)):
+    if not (isinstance(g, (Fraction, int, float)) and g == w):
+      law = "x[n]+alpha*x[n-%d]" % D if kind == "ff" else "x[n]+alpha*y[n-%d]" % D
+      raise Violation("%s on %s (%d samples): y[%d] = %r, %s with alpha=%r gives %s"
+                      % (what, sigtxt, n, i, g, law, alpha, w))
+  if want is not None and case["sig"] == "impulse":
+    # the response itself against the stated decay: e^(-delay/tau) after one period, its square after two
+    for k in (1, 2):
+      if k * D < n and not abs(float(y[k * D]) - math.exp(-k * D / par)) <= 4e-12:
+        raise Violation("%s: impulse response at n = %d is %r, e^(-%d*delay/tau) is %r"
+                        % (what, k * D, float(y[k * D]), k, math.exp(-k * D / par)))
+  labels.append("signal:" + case["sig"])
+  if n > 2 * D:
+    labels.append("more than two periods")
+  return {"nontrivial": real and any(v != 0 for v in x[:n - D]), "labels": labels}
+
+
 # ---------------------------------------------------------------- gammatone
 
 def strat_gammatone(tier):
@@ -564,8 +725,13 @@ def strat_streams_(draw):
                 bw=draw(st.lists(_bw, min_size=n, max_size=n)) if mode != "freq" else draw(_bw))
   else:
     kind = draw(st.sampled_from(["fb", "ff", "tau"]))
-    case.update(kind=kind, delay=draw(st.integers(1, 12)),
-                par=draw(st.lists(_tau.filter(lambda t: t != math.inf) if kind == "tau" else _alpha,
+    # delays 1..12 as before, and a quarter on delay lines of hundreds to thousands of samples (taus
+    # then of the order of the delay: the coefficient is not negligible)
+    D = draw(st.sampled_from(["short", "short", "short", "long"]).flatmap(
+      lambda r: st.integers(1, 12) if r == "short" else _long_delay()))
+    taus = _tau if D <= 12 else _long_tau(D)
+    case.update(kind=kind, delay=D,
+                par=draw(st.lists(taus.filter(lambda t: t != math.inf) if kind == "tau" else _alpha,
                                   min_size=n, max_size=n)))
   return case
 
@@ -639,6 +805,16 @@ def run_streams(case):
       if got is None or any(g != w for g, w in zip(got, want)):
         raise Violation("%s: coefficient at delay %d is %r, expected %r" % (what, D, got, want))
       sf = comb[kind](D, as_stream(src, ps))
+    else:
+      # tau form: each sample of the feedback coefficient is e^(-delay/tau) of that sample's tau
+      # (stated decay, not only agreement with the constant design)
+      got = coefficient_table(sf, len(ps), what).get(("a", D))
+      if got is None or any(not abs(-g - math.exp(-D / p)) <= 1e-12 for g, p in zip(got, ps)):
+        raise Violation("%s: feedback coefficient is %r, e^(-delay/tau) gives %r"
+                        % (what, got and [-g for g in got], [math.exp(-D / p) for p in ps]))
+      sf = comb[kind](D, as_stream(src, ps))
+    if D > 130:
+      labels.append("comb delay>130")
   ns = compare_tables(sf, consts, what)
   if ns == 0:
     raise Violation("%s: no coefficient is a Stream" % what)
@@ -664,6 +840,14 @@ CLAUSES = [
                  "given state, delay>40": .03},
          doc="exact Q response == x[n]+alpha*y[n-D] (fb, tau with alpha=e^(-D/tau)) / x[n]+alpha*x[n-D] (ff), "
              "D up to 130, from rest and (fb, tau) from a given memory"),
+  Clause("longcomb", strat_longcomb, run_longcomb, quick=400, thorough=5000,
+         floors={"comb.tau": .2, "comb.fb": .06, "comb.ff": .02, "delay 709..745": .03, "delay 746..3000": .12,
+                 "delay>3000": .01, "delay>=709, finite tau, alpha>=1e-3": .12, "mode:coef": .04, "mode:run": .15,
+                 "mode:stream": .08, "signal:impulse": .08, "more than two periods": .08,
+                 "tau within delay/10..100*delay": .15},
+         doc="delay lines of 131..48000 samples: comb.tau coefficient == e^(-D/tau) (tau from D/10 to 100 D, number "
+             "or Stream), exact Q responses of fb / tau / ff over 1-3 periods for D <= 3000, impulse response "
+             "at D and 2D against the stated decay"),
   Clause("gammatone", strat_gammatone, run_gammatone, quick=1000, thorough=10000,
          floors={"gammatone.sampled": .15, "gammatone.slaney": .08, "gammatone.klapuri": .08},
          doc="CascadeFilter of stable second-order sections, unit gain at the centre frequency"),
